@@ -155,6 +155,14 @@ pub fn rec_frame_new(a: &Args, out: &mut Out) {
             queue.push(mk_frame(&p, 0));
         }
     }
+    for total in [65535usize, 65536, 65537, 65541, 131072, 131075] {
+        let f = random_frame(&mut r, &nums);
+        let mut b = f.clone();
+        if total > b.len() {
+            b.resize(total, 0x11);
+        }
+        queue.push(b);
+    }
     let mut emitted = 0;
     while emitted < n {
         if queue.is_empty() {
@@ -211,7 +219,14 @@ pub fn rec_sfx(a: &Args, out: &mut Out) {
             }
             _ => random_frame(&mut r, &nums),
         };
-        let sfx: Vec<u8> = match r.gen_range(0..7) {
+        let sfx: Vec<u8> = match if k % 40 == 39 { 99 } else { r.gen_range(0..7) } {
+            99 => {
+                // total buffer length around a multiple of 65536 (length arithmetic must not be done in 16 bits)
+                let base = 65536usize * (1 + (k as usize / 40) % 2);
+                let total = base + *pick(&mut r, &[0usize, 1, 5, f.len() - 1, f.len(), 3]);
+                let fill = *pick(&mut r, &[0u8, 0x55, 0xFF]);
+                vec![fill; total.saturating_sub(f.len())]
+            }
             0 => vec![],
             1 => vec![*pick(&mut r, &[0x00u8, 0xD3, 0xFF])],
             2 => (0..2).map(|_| r.gen()).collect(),
@@ -242,7 +257,18 @@ pub fn rec_scan(a: &Args, out: &mut Out) {
     let mut r = rng(a.seed(), 5);
     let nums = supported_numbers();
     for k in 0..n {
-        let (buf, tags) = if k % 6 == 5 {
+        let (buf, tags) = if k % 97 == 96 {
+            let total = 65536usize * (1 + (k as usize / 97) % 2) + *pick(&mut r, &[0usize, 2, 5, 9]);
+            let mut b: Vec<u8> = vec![];
+            if r.gen() {
+                b.extend(vec![0x22u8; r.gen_range(0..4)]);
+            }
+            b.extend(random_frame(&mut r, &nums));
+            if total > b.len() {
+                b.resize(total, 0x33);
+            }
+            (b, vec!["large"])
+        } else if k % 6 == 5 {
             let len = r.gen_range(0..600);
             ((0..len).map(|_| if r.gen_range(0..8) == 0 { 0xD3 } else { r.gen() }).collect(), vec!["random"])
         } else {
